@@ -213,7 +213,7 @@ Definition begin_call (numops : Z) (nms nclks : nat) : Z * call_out :=
 Definition end_call (numops : Z) : option Z :=
   if numops =? 1 then Some 0 else None.
 
-(* histories of one collector object: calls (by id) and the returns of admitted calls *)
+(* histories of one collector object: calls (by id) and the returns of the calls that were let in *)
 Inductive gop := GCall (id : nat) (nms nclks : nat) | GReturn (id : nat).
 Inductive gout := GO_call (o : call_out) | GO_ret | GO_inconsistent | GO_ignored.
 Record gst := { g_numops : Z; g_active : list nat }.
@@ -230,7 +230,7 @@ Definition gstep (g : gst) (o : gop) : gst * gout :=
         | Some c => ({| g_numops := c; g_active := filter (fun x => negb (Nat.eqb id x)) (g_active g) |}, GO_ret)
         | None => (g, GO_inconsistent)
         end
-      else (g, GO_ignored)      (* only a call that was admitted and has not returned can return *)
+      else (g, GO_ignored)      (* only a call that was let in and has not returned can return *)
   end.
 
 Fixpoint grun (g : gst) (os : list gop) : gst * list gout :=
@@ -304,6 +304,40 @@ Fixpoint guard_ok_from (earlier : list gobs) (l : list gobs) : bool :=
       && guard_ok_from (earlier ++ [o]) r
   end.
 Definition C16_guard_ok (l : list gobs) : bool := guard_ok_from [] l.
+
+(* ---------- timed histories of one collector object ---------- *)
+(* Calls in start order: start time, lengths equal?, how long the round takes if it is let
+   in (its return time relative to its start), and how the race is resolved when the call
+   is made at the very instant the call in progress returns. *)
+Record hcall := { hc_start : Z; hc_lens : bool; hc_dur : Z; hc_return_first : bool }.
+
+(* the call in progress (if any, with its return time) is over before the call c is made *)
+Definition hist_retire (g : gst) (act : option (nat * Z)) (c : hcall) : gst * option (nat * Z) :=
+  match act with
+  | Some (aid, rt) =>
+      if (rt <? hc_start c) || ((rt =? hc_start c) && hc_return_first c)
+      then (fst (gstep g (GReturn aid)), None) else (g, act)
+  | None => (g, None)
+  end.
+
+(* the guard driven by a timed history; act = the call in progress and its return time *)
+Fixpoint hist_model (g : gst) (act : option (nat * Z)) (id : nat) (cs : list hcall) : list gobs :=
+  match cs with
+  | [] => []
+  | c :: r =>
+      let t := hc_start c in
+      let ga := hist_retire g act c in
+      let go := gstep (fst ga) (GCall id (if hc_lens c then 0 else 1) 0)%nat in
+      match snd go with
+      | GO_call Started =>
+          {| go_start := t; go_lens := hc_lens c; go_out := 0; go_ret := t + hc_dur c |}
+          :: hist_model (fst go) (Some (id, t + hc_dur c)) (S id) r
+      | GO_call PanicLen =>
+          {| go_start := t; go_lens := hc_lens c; go_out := 1; go_ret := -1 |} :: hist_model (fst go) (snd ga) (S id) r
+      | _ =>
+          {| go_start := t; go_lens := hc_lens c; go_out := 2; go_ret := -1 |} :: hist_model (fst go) (snd ga) (S id) r
+      end
+  end.
 
 (* ---------- a scheduler that looks for the schedule behind an observation ---------- *)
 (* Given the order g in which successful results are to be received by the
